@@ -347,6 +347,36 @@ def l1_cases(rng, tier):
             yield '%s %d %x' % (rng.choice(['l1sshl1', 'l1cadd1', 'l1bitlen']), bits, x)
 
 
+# widths around the f64 / f32 mantissa sizes (a float fast path or estimate is exact below them and not above)
+GRID_ALL = sorted(set(GRID_ALL) | {24, 52, 53, 54})
+
+
+def decimal_sweep(rng, tier):
+    """every power of ten (and its predecessor) at the wide widths, through log10 / checked_log10 / log(·, 10): an estimate
+    that is off by one only in a sliver below some 10^k of a wide type is met deterministically; plus the top squares /
+    cubes ± 1 at the mantissa widths for root"""
+    for bits in (200, 521, 1024, 4096):
+        m = 1 << bits
+        kmax = ilog(10, m - 1)
+        step = 1 if (tier != 'quick' or bits <= 1024) else 3
+        for k in range(0, kmax + 1, step):
+            p = 10 ** k
+            for x in (p - 1, p):
+                if 0 < x < m:
+                    yield 'log10 %d %x' % (bits, x)
+                    yield 'clog10 %d %x' % (bits, x)
+                    if k % 4 == 0:
+                        yield 'log %d %x a' % (bits, x)
+    for bits in (24, 52, 53, 54, 63, 64):
+        m = 1 << bits
+        for d in (2, 3):
+            top = iroot(m - 1, d)
+            for r in [top - i for i in range(0, 40)] + [top - rng.randrange(top // 2) for _ in range(200)]:
+                for x in (r ** d - 1, r ** d, r ** d + 1):
+                    if 0 <= x < m:
+                        yield 'root %d %x %x' % (bits, x, d)
+
+
 def gen(rng, tier):
     """all cases, shuffled (deterministically): non-terminating cases of a broken `root`/`log` cost a
     time-out each, so they must be spread evenly over the parallel chunks"""
@@ -354,6 +384,7 @@ def gen(rng, tier):
     out += list(approx_cases(rng, tier))
     out += list(apow2_cases(rng, tier))
     out += list(l1_cases(rng, tier))
+    out += list(decimal_sweep(rng, tier))
     n = 80000 if tier == 'quick' else 5000000
     k = 0
     big = [b for b in GRID_ALL if b > 8]
